@@ -206,4 +206,120 @@ Gen<Case> makeHistGen(const Cfg &cfg) {
     });
 }
 
+
+// ---------------------------------------------------------------- C06: pairs of histories
+// cfg: classes, mix (per-history op mix)
+Gen<Case> makeEqGen(const Cfg &cfg) {
+    std::vector<std::string> classes = splitList(cfgGet(cfg, "classes", "DS:none"), ';');
+    std::vector<std::pair<int, std::string>> mix;
+    for (auto &m : splitList(cfgGet(cfg, "mix", "add:50;rm:20;clear:5"), ';')) {
+        auto kv = splitList(m, ':');
+        mix.emplace_back(kv.size() > 1 ? std::atoi(kv[1].c_str()) : 1, kv[0]);
+    }
+    return gen::exec([=]() {
+        std::string cl = *gen::resize(kNominalSize, gen::elementOf(classes));
+        auto parts = splitList(cl, ':');
+        HistCfg h;
+        h.directed = parts[0][0] == 'D';
+        h.fam = parts[0][1] == 'M' ? 'M' : parts[0][1] == 'W' ? 'W' : 'L';
+        h.nolabel = parts[0][1] == 'S';
+        h.forcePct = 0;
+        h.exact = true;
+        std::vector<std::pair<std::size_t, Gen<Op>>> gens;
+        std::size_t total = 0;
+        for (auto &m : mix) {
+            if ((m.second == "recip" || m.second == "recip1") && (!h.directed || h.fam == 'W'))
+                continue;
+            if (m.second == "recip1" && h.fam != 'M')
+                continue;
+            if ((m.second == "add1" || m.second == "rmk" || m.second == "setm") && h.fam != 'M')
+                continue;
+            if (m.second == "setw" && h.fam != 'W')
+                continue;
+            if (m.second == "setl" && (h.fam != 'L' || h.nolabel))
+                continue;
+            gens.emplace_back((std::size_t)m.first, gOpOfKind(m.second, h));
+            total += (std::size_t)m.first;
+        }
+        Gen<Op> opg = gen::mapcat(gen::resize(kNominalSize, gen::inRange<std::size_t>(0, total)), [gens](std::size_t r) {
+            for (auto &g : gens) {
+                if (r < g.first)
+                    return g.second;
+                r -= g.first;
+            }
+            return gens.back().second;
+        });
+        auto withTarget = [](std::vector<Op> v, int t) {
+            for (auto &o : v)
+                o.target = t;
+            return v;
+        };
+        auto rebuildOp = [&](int target) {
+            Op o;
+            o.kind = "rebuild";
+            o.target = target;
+            o.a.push_back(S(*uni(0, 4)));
+            std::vector<int> keys = *gen::container<std::vector<int>>(uni(0, 64));
+            if (keys.empty())
+                keys.push_back(0);
+            for (int k : keys)
+                o.a.push_back(S(k));
+            return o;
+        };
+        Case c;
+        c.set("prop", "C06");
+        c.set("class", parts[0]);
+        c.set("label", parts.size() > 1 ? parts[1] : "none");
+        if (h.fam == 'W')
+            c.set("mode", "exact");
+        int scenario = *wel({{3, 0}, {3, 1}, {2, 2}, {2, 3}});
+        c.set("scenario", std::string(1, char('a' + scenario)));
+        int n0 = *gN0();
+        std::vector<Op> ops;
+        auto append = [&](std::vector<Op> v) { ops.insert(ops.end(), v.begin(), v.end()); };
+        if (scenario == 0 || scenario == 1) {
+            // (a) same value, different history; (b) ... plus one further change
+            c.set("n0", S(n0));
+            c.set("n1", S(n0));
+            append(withTarget(*gen::container<std::vector<Op>>(opg), 0));
+            ops.push_back(rebuildOp(0));
+            if (scenario == 1) {
+                Op extra = *opg;
+                extra.target = *uni(0, 2);
+                ops.push_back(extra);
+            }
+        } else if (scenario == 2) {
+            // (c) independent small histories: equal by chance and unequal both occur
+            c.set("n0", S(*uni(0, 4)));
+            c.set("n1", S(*uni(0, 4)));
+            std::vector<Op> a = withTarget(*gen::scale(0.4, gen::container<std::vector<Op>>(opg)), 0);
+            std::vector<Op> b = withTarget(*gen::scale(0.4, gen::container<std::vector<Op>>(opg)), 1);
+            append(a);
+            append(b);
+        } else {
+            // (d) copy, then mutate either side
+            c.set("n0", S(n0));
+            c.set("n1", S(*uni(0, 3)));
+            append(withTarget(*gen::container<std::vector<Op>>(opg), 0));
+            Op cp;
+            cp.kind = "copy";
+            cp.target = 0;
+            cp.a.push_back(S(*uni(0, 2)));
+            ops.push_back(cp);
+            std::vector<Op> after = *gen::scale(0.3, gen::container<std::vector<Op>>(opg));
+            for (auto &o : after) {
+                o.target = *uni(0, 2);
+                ops.push_back(o);
+                if (*uni(0, 4) == 0) {
+                    Op e;
+                    e.kind = "eq";
+                    ops.push_back(e);
+                }
+            }
+        }
+        c.ops = ops;
+        return c;
+    });
+}
+
 } // namespace verif
